@@ -178,6 +178,26 @@ impl Transaction {
         r is Err ==> !final(self).is_discharged,                                                                                                          // [C18.controller.failed-discharge-not-recorded] a discharge whose outcome is an error is NOT recorded as done: the application (or Drop) can still roll back
 //@@ end
 }
+impl Transaction {
+//@@ fn file=fe2o3-amqp/src/transaction/mod.rs impl=`~TransactionDischarge:Sized` name=commit
+//@@ nowhere
+//@@ ret Result<(), ControllerSendError>
+//@@ subst `(mut self)` => `(&mut self)` rule=R32
+//@@ subst `async move {` => `{` rule=R3
+//@@ spec
+    ensures
+        !old(self).is_discharged && r is Ok ==> final(self).controller.inner.sent@ == old(self).controller.inner.sent@.push(Sent { body: Body::Discharge(Discharge { txn_id: old(self).declared.txn_id, fail: Some(false) }), settled: false, state: None, batchable: false }),   // [C18.controller.commit-is-discharge-without-fail] commit puts a discharge for THIS transaction's id with fail=false on the wire
+//@@ end
+//@@ fn file=fe2o3-amqp/src/transaction/mod.rs impl=`~TransactionDischarge:Sized` name=rollback
+//@@ nowhere
+//@@ ret Result<(), ControllerSendError>
+//@@ subst `(mut self)` => `(&mut self)` rule=R32
+//@@ subst `async move {` => `{` rule=R3
+//@@ spec
+    ensures
+        !old(self).is_discharged && r is Ok ==> final(self).controller.inner.sent@ == old(self).controller.inner.sent@.push(Sent { body: Body::Discharge(Discharge { txn_id: old(self).declared.txn_id, fail: Some(true) }), settled: false, state: None, batchable: false }),    // [C18.controller.rollback-is-discharge-with-fail] rollback puts a discharge for this transaction's id with fail=true on the wire
+//@@ end
+}
 impl OwnedTransaction {
 //@@ fn file=fe2o3-amqp/src/transaction/owned.rs impl=`impl TransactionDischarge for OwnedTransaction` name=discharge as=owned_discharge
 //@@ qmark
